@@ -1240,7 +1240,10 @@ func main() {
 			}
 			offs = append(offs, 255, 256, 257)
 			if L >= 65534 && !thorough {
-				offs = []int{4 + rng.Intn(297), 255}
+				offs = []int{255}
+				if f.name == "host" || f.name == "xor" || f.name == "tlsca" {
+					offs = []int{4 + rng.Intn(297), 255}
+				}
 			}
 			seen := map[int]bool{}
 			for _, o := range offs {
